@@ -188,9 +188,11 @@ PROPS['C01'] = {
     'rule': _FUT_RULE,
     'min_nontrivial': [200, 2000],
     'require_classes': ['future_mt:rounds_with_competing_resolvers', 'future_mt:winner_promise_destruction', 'future_mt:winner_drop', 'future_mt:winner_exception'],
+    'single_thread_scenarios': ('promise_history',),
     'jobs': [
         J('mt_rel', 'c01.cpp', 'rel', [400000, 20000000], scenario='future_mt', threads=6),
         J('mt_asan', 'c01.cpp', 'asan', [60000, 3000000], scenario='future_mt', threads=6),
+        J('hist_asan', 'c01.cpp', 'asan', [80000, 4000000], scenario='promise_history', threads=1),
         J('mt_crel', 'c01.cpp', 'crel', [0, 10000000], scenario='future_mt', threads=6, tiers=(T,)),
         J('mt_casan', 'c01.cpp', 'casan', [0, 1500000], scenario='future_mt', threads=6, tiers=(T,)),
     ],
